@@ -17,8 +17,8 @@ Hypothesis Hnil : P ENil. Hypothesis Htrue : P ETrue. Hypothesis Hfalse : P EFal
 Hypothesis Hnum : forall s, P (ENum s). Hypothesis Hstr : forall s, P (EStr s). Hypothesis Hname : forall n, P (EName n).
 Hypothesis Hfield : forall p n, P p -> P (EField p n).
 Hypothesis Hindex : forall p k, P p -> P k -> P (EIndex p k).
-Hypothesis Hcall : forall f args, P f -> Forall P args -> P (ECall f args).
-Hypothesis Hmethod : forall o m args, P o -> Forall P args -> P (EMethod o m args).
+Hypothesis Hcall : forall f sg args, P f -> Forall P args -> P (ECall f sg args).
+Hypothesis Hmethod : forall o m sg args, P o -> Forall P args -> P (EMethod o m sg args).
 Hypothesis Hun : forall u e, P e -> P (EUn u e).
 Hypothesis Hbin : forall b l r, P l -> P r -> P (EBin b l r).
 Hypothesis Hparen : forall e, P e -> P (EParen e).
@@ -33,8 +33,8 @@ Fixpoint exp_ind' (e : exp) : P e :=
   | ENum s => Hnum s | EStr s => Hstr s | EName n => Hname n
   | EField p n => Hfield p n (exp_ind' p)
   | EIndex p k => Hindex p k (exp_ind' p) (exp_ind' k)
-  | ECall f args => Hcall f args (exp_ind' f) (all args)
-  | EMethod o m args => Hmethod o m args (exp_ind' o) (all args)
+  | ECall f sg args => Hcall f sg args (exp_ind' f) (all args)
+  | EMethod o m sg args => Hmethod o m sg args (exp_ind' o) (all args)
   | EUn u x => Hun u x (exp_ind' x)
   | EBin b l r => Hbin b l r (exp_ind' l) (exp_ind' r)
   | EParen x => Hparen x (exp_ind' x)
@@ -73,9 +73,10 @@ Hypothesis obs_cons : forall t r r', obs r = obs r' -> obs (t :: r) = obs (t :: 
 Hypothesis obs_lparen : forall r, obs (kw "(" :: r) = obs r.
 Hypothesis obs_rparen : obs [kw ")"] = [].
 Hypothesis obs_comma : forall r, obs (kw "," :: sp :: r) = obs r.
+Hypothesis obs_ws : forall w r, obs (TWs w :: r) = obs r.
 Section ObsExp.
-Variable st : QuoteMore.style.
-Notation pexp := (Fmt0.pexp st).
+Variable c0 : cfg0.
+Notation pexp := (Fmt0.pexp c0).
 Lemma erase_kw_paren_l r : obs (kw "(" :: r) = obs r. Proof. apply obs_lparen. Qed.
 Lemma erase_kw_paren_r : obs [kw ")"] = []. Proof. apply obs_rparen. Qed.
 Lemma erase_commas l : obs (commas l) = List.concat (map obs l).
@@ -104,14 +105,22 @@ Proof.
   cbn [pexp]. apply erase_parens.
 Qed.
 Ltac congr := repeat first [ reflexivity | assumption | apply obs_app_congr | apply erase_cons ].
+(* parentheses around call arguments, and the blank in front of them, are not observed *)
+Lemma erase_pargs b xs : obs (pargs c0 b xs) = obs xs.
+Proof.
+  unfold pargs, gap_call, gap_sugar. destruct b; [apply obs_ws|]. destruct (CallForm.space_call (space0 c0)); cbn [app]; unfold sp; rewrite ?obs_ws;
+    rewrite erase_kw_paren_l, obs_app, erase_kw_paren_r, app_nil_r; reflexivity.
+Qed.
+Lemma erase_pargs_congr b b' xs xs' : obs xs = obs xs' -> obs (pargs c0 b xs) = obs (pargs c0 b' xs').
+Proof. intros H. rewrite !erase_pargs. exact H. Qed.
 Lemma erase_pexp_nexp : forall e c, obs (pexp (nexp c e)) = obs (pexp e).
 Proof.
   induction e using exp_ind'; intros c; cbn [nexp]; try reflexivity.
   - (* EField *) cbn [pexp]. congr. apply IHe.
   - (* EIndex *) cbn [pexp]. congr; [apply IHe1|apply IHe2].
-  - (* ECall *) cbn [pexp]. rewrite map_map. congr; [apply IHe|].
+  - (* ECall *) cbn [pexp]. rewrite map_map. congr; [apply IHe|]. apply erase_pargs_congr.
     apply (erase_commas_congr (fun x => pexp (nexp Std x)) (fun x => pexp x)). eapply Forall_impl; [|exact H]. intros a Ha. apply Ha.
-  - (* EMethod *) cbn [pexp]. rewrite map_map. congr; [apply IHe|].
+  - (* EMethod *) cbn [pexp]. rewrite map_map. congr; [apply IHe|]. apply erase_pargs_congr.
     apply (erase_commas_congr (fun x => pexp (nexp Std x)) (fun x => pexp x)). eapply Forall_impl; [|exact H]. intros a Ha. apply Ha.
   - (* EUn *) cbn [pexp]. congr. rewrite erase_guard. apply IHe.
   - (* EBin *) cbn [pexp]. congr; [apply IHe1|apply IHe2].
@@ -128,6 +137,29 @@ Proof.
   - (* FNamed *) cbn [pexp]. congr. apply IHe.
   - (* FKey *) cbn [pexp]. congr; [apply IHe1|apply IHe2].
 Qed.
+(* the call-form pass: a single argument gains or loses its parentheses, nothing else *)
+Lemma erase_pexp_cexp m : forall e o, obs (pexp (cexp m o e)) = obs (pexp e).
+Proof.
+  induction e using exp_ind'; intros o; cbn [cexp]; try reflexivity.
+  - cbn [pexp]. congr. apply IHe.
+  - cbn [pexp]. congr; [apply IHe1|apply IHe2].
+  - cbn [pexp]. congr; [apply IHe|]. apply erase_pargs_congr. rewrite map_map.
+    apply (erase_commas_congr (fun x => pexp (cexp m false x)) (fun x => pexp x)). eapply Forall_impl; [|exact H]. intros a Ha. apply Ha.
+  - cbn [pexp]. congr; [apply IHe|]. apply erase_pargs_congr. rewrite map_map.
+    apply (erase_commas_congr (fun x => pexp (cexp m false x)) (fun x => pexp x)). eapply Forall_impl; [|exact H]. intros a Ha. apply Ha.
+  - cbn [pexp]. congr. apply IHe.
+  - cbn [pexp]. congr; [apply IHe1|apply IHe2].
+  - cbn [pexp]. congr. apply IHe.
+  - destruct fs as [|f fs]; [reflexivity|].
+    change (cexp m o (ETable (f :: fs))) with (ETable (map (cexp m false) (f :: fs))).
+    change (pexp (ETable (map (cexp m false) (f :: fs)))) with (kw "{" :: sp :: commas (map pexp (map (cexp m false) (f :: fs))) ++ [sp; kw "}"]).
+    change (pexp (ETable (f :: fs))) with (kw "{" :: sp :: commas (map pexp (f :: fs)) ++ [sp; kw "}"]).
+    rewrite map_map. congr.
+    apply (erase_commas_congr (fun x => pexp (cexp m false x)) (fun x => pexp x)). eapply Forall_impl; [|exact H]. intros a Ha. apply Ha.
+  - cbn [pexp]. apply IHe.
+  - cbn [pexp]. congr. apply IHe.
+  - cbn [pexp]. congr; [apply IHe1|apply IHe2].
+Qed.
 End ObsExp.
 
 (* ---------- statements: unfolding equations and induction with the nested blocks ---------- *)
@@ -135,8 +167,8 @@ Definition fbody (c : cfg0) (d : nat) (b : blk) : list tok :=
   if blk_empty b then [sp; kw "end"] else eol c :: pblk c (S d) b ++ indent c d ++ [kw "end"].
 Section Unfold.
 Variables (c : cfg0) (d : nat).
-Notation pexp := (Fmt0.pexp (style0 c)).
-Notation pexps := (Fmt0.pexps (style0 c)).
+Notation pexp := (Fmt0.pexp c).
+Notation pexps := (Fmt0.pexps c).
 Lemma p_do b : pstmt c d (SDo b) = kw "do" :: eol c :: pblk c (S d) b ++ indent c d ++ [kw "end"]. Proof. reflexivity. Qed.
 Lemma p_while e b : pstmt c d (SWhile e b) = kw "while" :: sp :: pexp e ++ sp :: kw "do" :: eol c :: pblk c (S d) b ++ indent c d ++ [kw "end"]. Proof. reflexivity. Qed.
 Lemma p_repeat b e : pstmt c d (SRepeat b e) = kw "repeat" :: eol c :: pblk c (S d) b ++ indent c d ++ kw "until" :: sp :: pexp e. Proof. reflexivity. Qed.
@@ -147,9 +179,9 @@ Lemma p_numfor v a b st body : pstmt c d (SNumFor v a b st body) =
 Lemma p_genfor ns es body : pstmt c d (SGenFor ns es body) =
   kw "for" :: sp :: pnames ns ++ sp :: kw "in" :: sp :: pexps es ++ sp :: kw "do" :: eol c :: pblk c (S d) body ++ indent c d ++ [kw "end"]. Proof. reflexivity. Qed.
 Lemma p_function p m ps va body : pstmt c d (SFunction p m ps va body) =
-  kw "function" :: sp :: dotted p ++ (match m with Some n => [kw ":"; TIdent n] | None => [] end) ++ pparams ps va ++ fbody c d body. Proof. reflexivity. Qed.
+  kw "function" :: sp :: dotted p ++ (match m with Some n => [kw ":"; TIdent n] | None => [] end) ++ pparams c ps va ++ fbody c d body. Proof. reflexivity. Qed.
 Lemma p_localfunction n ps va body : pstmt c d (SLocalFunction n ps va body) =
-  kw "local" :: sp :: kw "function" :: sp :: TIdent n :: pparams ps va ++ fbody c d body. Proof. reflexivity. Qed.
+  kw "local" :: sp :: kw "function" :: sp :: TIdent n :: pparams c ps va ++ fbody c d body. Proof. reflexivity. Qed.
 Lemma p_else b : pels c d (Else b) = indent c d ++ kw "else" :: eol c :: pblk c (S d) b. Proof. reflexivity. Qed.
 Lemma p_elseif e t r : pels c d (ElseIf e t r) = indent c d ++ kw "elseif" :: sp :: pexp e ++ sp :: kw "then" :: eol c :: pblk c (S d) t ++ pels c d r. Proof. reflexivity. Qed.
 Lemma p_item l b s t : pitem c d (Item l b s t) = ptrivia c d l ++ (if b then [eol c] else []) ++ indent c d ++ pstmt c d s ++ ptrail t ++ [eol c]. Proof. reflexivity. Qed.
@@ -199,8 +231,8 @@ End StmtInd.
 (* ---------- C02 on whole programs: normalisation is invisible to the semantic erasure ---------- *)
 Section EraseProg.
 Variable c : cfg0.
-Notation pexp := (Fmt0.pexp (style0 c)).
-Notation pexps := (Fmt0.pexps (style0 c)).
+Notation pexp := (Fmt0.pexp c).
+Notation pexps := (Fmt0.pexps c).
 Ltac congr := repeat first [ reflexivity | assumption | apply obs_app_congr | apply erase_cons ].
 Lemma erase_ncond e : obs (pexp (ncond e)) = obs (pexp e).
 Proof.
@@ -258,27 +290,88 @@ Proof.
     apply obs_app_congr; [|reflexivity]. apply erase_concat_items. apply Forall_forall. intros i _.
     destruct i as [l bl s t]. unfold Ie. intros d0. cbn [nitem]. rewrite !p_item. congr. apply H.
 Qed.
+(* the same for any pass that rewrites expressions into expressions with the same observation *)
+Section SMapObs.
+Variable fe : exp -> exp.
+Hypothesis Hfe : forall e, obs (pexp (fe e)) = obs (pexp e).
+Lemma smap_pexps es : obs (pexps (map fe es)) = obs (pexps es).
+Proof.
+  unfold Fmt0.pexps. rewrite map_map. apply (erase_commas_congr (fun x => pexp (fe x)) (fun x => pexp x)).
+  apply Forall_forall. intros x _. apply Hfe.
+Qed.
+Definition Ps' (s : stmt) : Prop := forall d, obs (pstmt c d (smap_s fe s)) = obs (pstmt c d s).
+Definition Qe' (r : els) : Prop := forall d, obs (pels c d (smap_r fe r)) = obs (pels c d r).
+Definition Ie' (i : item) : Prop := forall d, obs (pitem c d (smap_i fe i)) = obs (pitem c d i).
+Definition Be' (b : blk) : Prop := forall d, obs (pblk c d (smap_b fe b)) = obs (pblk c d b).
+Lemma blk_empty_smap b : blk_empty (smap_b fe b) = blk_empty b.
+Proof. destruct b as [is tl]. destruct is; reflexivity. Qed.
+Lemma smap_fbody b : Be' b -> forall d, obs (fbody c d (smap_b fe b)) = obs (fbody c d b).
+Proof.
+  intros H d. unfold fbody. rewrite blk_empty_smap. destruct (blk_empty b); [reflexivity|].
+  apply erase_cons. apply obs_app_congr; [apply H|reflexivity].
+Qed.
+Lemma smap_concat_items is : Forall Ie' is -> forall d, obs (List.concat (map (pitem c d) (map (smap_i fe) is))) = obs (List.concat (map (pitem c d) is)).
+Proof.
+  induction 1 as [|i r Hi Hr IH]; intros d; [reflexivity|]. cbn [map List.concat]. apply obs_app_congr; [apply Hi|apply IH].
+Qed.
+Lemma smap_obs_all : (forall s, Ps' s) /\ (forall b, Be' b).
+Proof.
+  assert (H : forall s, Ps' s); [|split; [exact H|]].
+  - apply (stmt_ind' Ps' Qe' Ie' Be'); unfold Ps', Qe', Ie', Be'; intros.
+    + (* SLocal *) cbn [smap_s]. destruct es as [|e es']; [reflexivity|].
+      change (map fe (e :: es')) with (fe e :: map fe es'). cbn [pstmt]. congr.
+      change (fe e :: map fe es') with (map fe (e :: es')). apply smap_pexps.
+    + (* SAssign *) cbn [smap_s pstmt]. congr; apply smap_pexps.
+    + (* SCall *) cbn [smap_s pstmt]. apply Hfe.
+    + (* SDo *) cbn [smap_s]. rewrite !p_do. congr. apply H.
+    + (* SWhile *) cbn [smap_s]. rewrite !p_while. congr; [apply Hfe|apply H].
+    + (* SRepeat *) cbn [smap_s]. rewrite !p_repeat. congr; [apply H|apply Hfe].
+    + (* SIf *) cbn [smap_s]. rewrite !p_if. congr; [apply Hfe|apply H|apply H0].
+    + (* SNumFor *) cbn [smap_s]. rewrite !p_numfor. congr; try apply Hfe; [|apply H].
+      destruct st as [x|]; cbn [option_map]; congr. apply Hfe.
+    + (* SGenFor *) cbn [smap_s]. rewrite !p_genfor. congr; [apply smap_pexps|apply H].
+    + (* SFunction *) cbn [smap_s]. rewrite !p_function. congr. apply smap_fbody. exact H.
+    + (* SLocalFunction *) cbn [smap_s]. rewrite !p_localfunction. congr. apply smap_fbody. exact H.
+    + (* SReturn *) cbn [smap_s]. destruct es as [|e es']; [reflexivity|].
+      change (map fe (e :: es')) with (fe e :: map fe es'). cbn [pstmt]. congr.
+      change (fe e :: map fe es') with (map fe (e :: es')). apply smap_pexps.
+    + (* SBreak *) reflexivity.
+    + (* NoElse *) reflexivity.
+    + (* Else *) cbn [smap_r]. rewrite !p_else. congr. apply H.
+    + (* ElseIf *) cbn [smap_r]. rewrite !p_elseif. congr; [apply Hfe|apply H|apply H0].
+    + (* Item *) cbn [smap_i]. rewrite !p_item. congr. apply H.
+    + (* Blk *) cbn [smap_b]. rewrite !p_blk. apply obs_app_congr; [apply smap_concat_items; exact H|reflexivity].
+  - intros b. destruct b as [is tl]. unfold Be'. intros d. cbn [smap_b]. rewrite !p_blk.
+    apply obs_app_congr; [|reflexivity]. apply smap_concat_items. apply Forall_forall. intros i _.
+    destruct i as [l bl s t]. unfold Ie'. intros d0. cbn [smap_i]. rewrite !p_item. congr. apply H.
+Qed.
+End SMapObs.
 Transparent pblk.
-Theorem format0_keeps_obs p : obs (pprog c (nprog p)) = obs (pprog c p).
+Theorem nprog_keeps_obs p : obs (pprog c (nprog p)) = obs (pprog c p).
 Proof. unfold pprog, nprog. apply (proj2 erase_prog_all). Qed.
+Theorem cprog_keeps_obs m p : obs (pprog c (cprog m p)) = obs (pprog c p).
+Proof. unfold pprog, cprog. apply (proj2 (smap_obs_all (cexp m false) (fun e => erase_pexp_cexp c m e false))). Qed.
+(* both passes together: what format0 prints *)
+Theorem format0_keeps_obs p : obs (pprog c (norm0 c p)) = obs (pprog c p).
+Proof. unfold norm0. rewrite cprog_keeps_obs. apply nprog_keeps_obs. Qed.
 End EraseProg.
 End Obs.
 
 (* the two instances *)
 Lemma erase_cons_inst dl t r r' : erase dl r = erase dl r' -> erase dl (t :: r) = erase dl (t :: r').
 Proof. intros H. destruct t; cbn [erase]; rewrite H; reflexivity. Qed.
-Theorem format0_keeps_erasure dl c p : erase dl (pprog c (nprog p)) = erase dl (pprog c p).
+Theorem format0_keeps_erasure dl c p : erase dl (pprog c (norm0 c p)) = erase dl (pprog c p).
 Proof.
-  apply (format0_keeps_obs (erase dl)); [reflexivity|apply erase_app|apply erase_cons_inst|reflexivity|reflexivity|reflexivity].
+  apply (format0_keeps_obs (erase dl)); [reflexivity|apply erase_app|apply erase_cons_inst|reflexivity|reflexivity|reflexivity|reflexivity].
 Qed.
 Lemma census_cons_inst t r r' : census r = census r' -> census (t :: r) = census (t :: r').
 Proof. intros H. cbn [census]. rewrite H. reflexivity. Qed.
 Lemma census_app a b : census (a ++ b) = census a ++ census b.
 Proof. induction a as [|t a IH]; [reflexivity|]. cbn [app census]. rewrite IH. destruct (norm_com t); reflexivity. Qed.
 (* C03 on L0: normalisation leaves every comment where it is *)
-Theorem format0_keeps_comments c p : census (pprog c (nprog p)) = census (pprog c p).
+Theorem format0_keeps_comments c p : census (pprog c (norm0 c p)) = census (pprog c p).
 Proof.
-  apply (format0_keeps_obs census); [reflexivity|apply census_app|apply census_cons_inst|reflexivity|reflexivity|reflexivity].
+  apply (format0_keeps_obs census); [reflexivity|apply census_app|apply census_cons_inst|reflexivity|reflexivity|reflexivity|reflexivity].
 Qed.
 
 (* ---------- C03 on whole programs: the comments of the output are the comments of the program, each once, in order ---------- *)
@@ -293,8 +386,8 @@ with coms_i (i : item) : list bytes := match i with Item l _ s t => map snd l ++
 with coms_b (b : blk) : list bytes := match b with Blk is tl => List.concat (map coms_i is) ++ map snd tl end.
 Section CensusProg.
 Variable c : cfg0.
-Notation pexp := (Fmt0.pexp (style0 c)).
-Notation pexps := (Fmt0.pexps (style0 c)).
+Notation pexp := (Fmt0.pexp c).
+Notation pexps := (Fmt0.pexps c).
 Definition lc (l : list bytes) : list com := map (fun x => LineC (trim_end x)) l.
 Lemma census_kw s r : census (kw s :: r) = census r. Proof. reflexivity. Qed.
 Lemma census_sp r : census (sp :: r) = census r. Proof. reflexivity. Qed.
@@ -307,13 +400,17 @@ Proof.
   induction 1 as [|x r Hx Hr IH]; [reflexivity|]. destruct r as [|y r']; [cbn [commas]; exact Hx|].
   change (commas (x :: y :: r')) with (x ++ kw "," :: sp :: commas (y :: r')). rewrite census_app, Hx, census_kw, census_sp. exact IH.
 Qed.
+Lemma census_pargs b xs : census (pargs c b xs) = census xs.
+Proof.
+  unfold pargs, gap_call, gap_sugar. destruct b; [reflexivity|]. destruct (CallForm.space_call (space0 c)); cbn [app]; rewrite ?census_sp, census_kw, census_app; cbn [census norm_com]; apply app_nil_r.
+Qed.
 Lemma census_pexp : forall e, census (pexp e) = [].
 Proof.
   induction e using exp_ind'; cbn [Fmt0.pexp]; try reflexivity.
   - rewrite census_app, IHe. reflexivity.
   - rewrite census_app, IHe1, census_kw, census_app, IHe2. reflexivity.
-  - rewrite census_app, IHe, census_kw, census_app, census_commas; [reflexivity|apply Forall_map; exact H].
-  - rewrite census_app, IHe, census_kw, census_ident, census_kw, census_app, census_commas; [reflexivity|apply Forall_map; exact H].
+  - rewrite census_app, IHe, census_pargs, census_commas; [reflexivity|apply Forall_map; exact H].
+  - rewrite census_app, IHe, census_kw, census_ident, census_pargs, census_commas; [reflexivity|apply Forall_map; exact H].
   - rewrite census_app, IHe. destruct u; reflexivity.
   - rewrite census_app, IHe1, census_sp, census_kw, census_sp. exact IHe2.
   - rewrite census_kw, census_app, IHe. reflexivity.
@@ -328,9 +425,10 @@ Lemma census_pnames ns : census (pnames ns) = [].
 Proof. apply census_commas. apply Forall_map. apply Forall_forall. intros x _. reflexivity. Qed.
 Lemma census_dotted p : census (dotted p) = [].
 Proof. induction p as [|n r IH]; [reflexivity|]. destruct r; [reflexivity|]. exact IH. Qed.
-Lemma census_pparams ps va : census (pparams ps va) = [].
+Lemma census_pparams ps va : census (pparams c ps va) = [].
 Proof.
-  unfold pparams. rewrite census_kw, census_app, census_commas; [reflexivity|].
+  unfold pparams. rewrite census_app. assert (E : census (if CallForm.space_definition (space0 c) then [sp] else []) = []) by (destruct (CallForm.space_definition (space0 c)); reflexivity).
+  rewrite E. cbn [app]. rewrite census_kw, census_app, census_commas; [reflexivity|].
   apply Forall_app. split; [apply Forall_map; apply Forall_forall; intros x _; reflexivity|]. destruct va; repeat constructor.
 Qed.
 Lemma census_ptrivia d tv : census (ptrivia c d tv) = lc (map snd tv).
@@ -390,15 +488,15 @@ Proof.
     apply HB. apply Forall_forall. intros i _. destruct i as [l bl s t]. apply Hitem. apply H.
 Qed.
 Transparent pblk.
-Theorem format0_comments_exact p : census (pprog c (nprog p)) = lc (coms_b p).
+Theorem format0_comments_exact p : census (pprog c (norm0 c p)) = lc (coms_b p).
 Proof. rewrite format0_keeps_comments. unfold pprog. apply (proj2 census_all). Qed.
 End CensusProg.
 
 (* ---------- C10 on whole programs: the printed tokens pass the whitespace discipline ---------- *)
 Section Whitespace.
 Variable c : cfg0.
-Notation pexp := (Fmt0.pexp (style0 c)).
-Notation pexps := (Fmt0.pexps (style0 c)).
+Notation pexp := (Fmt0.pexp c).
+Notation pexps := (Fmt0.pexps c).
 Definition wcfg (eof : bool) : wscfg := {| windows := windows0 c; spaces := spaces0 c; width := width0 c; eof_formatted := eof |}.
 (* the scan of Census.ws_scan on token lists whose comments are line comments without a carriage return, as a state
    machine (state: "at the start of a line"); it is stricter than ws_scan in one place: an indentation is judged even
@@ -483,13 +581,23 @@ Lemma inline_commas_ne l : l <> [] -> Forall inline l -> inline (commas l).
 Proof. intros N H b. rewrite run_commas by exact H. destruct l; [contradiction|reflexivity]. Qed.
 Lemma run_commas_false l : Forall inline l -> run false (commas l) = Some false.
 Proof. intros H. rewrite run_commas by exact H. destruct l; reflexivity. Qed.
+Lemma run_blanks n r : run false (TWs (repeat SP (S n)) :: r) = run false r.
+Proof.
+  cbn [run step]. rewrite newlines_ok_blanks by reflexivity. rewrite ends_in_lf_blanks by reflexivity. reflexivity.
+Qed.
+Lemma run_pargs sug l : Forall inline l -> run false (pargs c sug (commas l)) = Some false.
+Proof.
+  intros H. unfold pargs, gap_call, gap_sugar. destruct sug.
+  { destruct (CallForm.space_call (space0 c)); [rewrite (run_blanks 1)|rewrite (run_blanks 0)]; apply run_commas_false; exact H. }
+  destruct (CallForm.space_call (space0 c)); cbn [app]; rewrite ?run_sp, run_kw, run_app, run_commas_false by exact H; reflexivity.
+Qed.
 Lemma inline_pexp : forall e, inline (pexp e).
 Proof.
   induction e using exp_ind'; intros b0; cbn [Fmt0.pexp]; try reflexivity.
   - rewrite run_app, IHe. reflexivity.
   - rewrite run_app, IHe1, run_kw, run_app, IHe2. reflexivity.
-  - rewrite run_app, IHe, run_kw, run_app, run_commas_false; [reflexivity|]. apply Forall_map. exact H.
-  - rewrite run_app, IHe, run_kw. rewrite run_plain by reflexivity. rewrite run_kw, run_app, run_commas_false; [reflexivity|]. apply Forall_map. exact H.
+  - rewrite run_app, IHe. apply run_pargs. apply Forall_map. exact H.
+  - rewrite run_app, IHe, run_kw. rewrite run_plain by reflexivity. apply run_pargs. apply Forall_map. exact H.
   - rewrite run_app. destruct u; cbn [uop_toks]; try (rewrite run_kw; cbn [run]; apply IHe).
   - rewrite run_app, IHe1, run_sp, run_kw, run_sp. apply IHe2.
   - rewrite run_kw, run_app, IHe. reflexivity.
@@ -505,10 +613,10 @@ Lemma inline_pnames_false ns : run false (pnames ns) = Some false.
 Proof. apply run_commas_false. apply Forall_map. apply Forall_forall. intros x _ b. reflexivity. Qed.
 Lemma run_dotted p : run false (dotted p) = Some false.
 Proof. induction p as [|n r IH]; [reflexivity|]. destruct r; [reflexivity|]. change (dotted (n :: b :: r)) with (TIdent n :: kw "." :: dotted (b :: r)). rewrite run_plain by reflexivity. rewrite run_kw. exact IH. Qed.
-Lemma run_pparams ps va r : run false (pparams ps va ++ r) = run false r.
+Lemma run_pparams ps va r : run false (pparams c ps va ++ r) = run false r.
 Proof.
-  unfold pparams. cbn [app]. rewrite run_kw, <- app_assoc, run_app, run_commas_false; [reflexivity|].
-  apply Forall_app. split; [apply Forall_map; apply Forall_forall; intros x _ b; reflexivity|]. destruct va; [repeat constructor; intros b; reflexivity|constructor].
+  unfold pparams. destruct (CallForm.space_definition (space0 c)); cbn [app]; rewrite ?run_sp, run_kw, <- app_assoc, run_app, run_commas_false; try reflexivity.
+  all: apply Forall_app; (split; [apply Forall_map; apply Forall_forall; intros x _ b; reflexivity|]); destruct va; [repeat constructor; intros b; reflexivity|constructor].
 Qed.
 
 (* well-formedness: an assignment has a target (the one shape the printer would misplace), comments hold no carriage return *)
@@ -601,11 +709,167 @@ Theorem format0_whitespace_discipline p eof : wf_blk p -> ws_scan (wcfg eof) tru
 Proof. intros W. apply (run_sound eof _ true true). unfold pprog. apply (proj2 discipline_all). exact W. Qed.
 End Whitespace.
 
+(* ---------- C10 on what format0 prints: both passes keep the (weak) well-formedness the discipline theorem asks for ---------- *)
+Theorem wf_nblk : (forall s, wf_stmt s -> wf_stmt (nstmt s)) /\ (forall b, wf_blk b -> wf_blk (nblk b)).
+Proof.
+  assert (HI : forall is, Forall (fun i => wf_item i -> wf_item (nitem i)) is -> wf_items is -> wf_items (map (nitem) is)).
+  { induction 1 as [|i r Hi Hr IH]; intros W; [exact I|]. destruct W as [W1 W2]. cbn [map wf_items]. split; [apply Hi; exact W1|apply IH; exact W2]. }
+  assert (H : forall s, wf_stmt s -> wf_stmt (nstmt s)).
+  - apply (stmt_ind' (fun s => wf_stmt s -> wf_stmt (nstmt s)) (fun r => wf_els r -> wf_els (nels r)) (fun i => wf_item i -> wf_item (nitem i)) (fun b => wf_blk b -> wf_blk (nblk b)));
+      intros; cbn [nstmt nels nitem wf_stmt wf_els wf_item] in *; try exact I; try (apply H; assumption).
+    + destruct vs; [contradiction|discriminate].
+    + destruct H1 as [A B]. split; [apply H; exact A|apply H0; exact B].
+    + destruct H1 as [A B]. split; [apply H; exact A|apply H0; exact B].
+    + destruct H0 as (A & B & C). split; [exact A|]. split; [apply H; exact B|exact C].
+    + rewrite wf_blk_eq in H0. destruct H0 as [A B]. change (wf_items (map (nitem) is) /\ wf_trivia tl). split; [apply HI; assumption|exact B].
+  - split; [exact H|]. intros [is tl] W. rewrite wf_blk_eq in W. destruct W as [A B]. change (wf_items (map (nitem) is) /\ wf_trivia tl).
+    split; [|exact B]. apply HI; [|exact A]. apply Forall_forall. intros [l bl s t] _ (X & Y & Z). split; [exact X|]. split; [apply H; exact Y|exact Z].
+Qed.
+Section WfSMap.
+Variable fe : exp -> exp.
+Theorem wf_smap : (forall s, wf_stmt s -> wf_stmt (smap_s fe s)) /\ (forall b, wf_blk b -> wf_blk (smap_b fe b)).
+Proof.
+  assert (HI : forall is, Forall (fun i => wf_item i -> wf_item (smap_i fe i)) is -> wf_items is -> wf_items (map (smap_i fe) is)).
+  { induction 1 as [|i r Hi Hr IH]; intros W; [exact I|]. destruct W as [W1 W2]. cbn [map wf_items]. split; [apply Hi; exact W1|apply IH; exact W2]. }
+  assert (H : forall s, wf_stmt s -> wf_stmt (smap_s fe s)).
+  - apply (stmt_ind' (fun s => wf_stmt s -> wf_stmt (smap_s fe s)) (fun r => wf_els r -> wf_els (smap_r fe r)) (fun i => wf_item i -> wf_item (smap_i fe i)) (fun b => wf_blk b -> wf_blk (smap_b fe b)));
+      intros; cbn [smap_s smap_r smap_i wf_stmt wf_els wf_item] in *; try exact I; try (apply H; assumption).
+    + destruct vs; [contradiction|discriminate].
+    + destruct H1 as [A B]. split; [apply H; exact A|apply H0; exact B].
+    + destruct H1 as [A B]. split; [apply H; exact A|apply H0; exact B].
+    + destruct H0 as (A & B & C). split; [exact A|]. split; [apply H; exact B|exact C].
+    + rewrite wf_blk_eq in H0. destruct H0 as [A B]. change (wf_items (map (smap_i fe) is) /\ wf_trivia tl). split; [apply HI; assumption|exact B].
+  - split; [exact H|]. intros [is tl] W. rewrite wf_blk_eq in W. destruct W as [A B]. change (wf_items (map (smap_i fe) is) /\ wf_trivia tl).
+    split; [|exact B]. apply HI; [|exact A]. apply Forall_forall. intros [l bl s t] _ (X & Y & Z). split; [exact X|]. split; [apply H; exact Y|exact Z].
+Qed.
+End WfSMap.
+Theorem format0_output_obeys_the_discipline c p eof : wf_blk p -> ws_scan (wcfg c eof) true false (pprog c (norm0 c p)) = None.
+Proof. intros W. apply format0_whitespace_discipline. unfold norm0, cprog. apply (proj2 (wf_smap _)). apply (proj2 wf_nblk). exact W. Qed.
+
 (* ---------- C06: normalisation is not idempotent on all of L0 ---------- *)
 (* `local x = (- -f())`: the first pass keeps the outer parentheses (the rule looks through the unary operators and finds
    a call, whose parentheses could truncate), and guards the double minus: `(-(-f()))`; the second pass finds
    parentheses under the outer minus, which the rule always lets go: `-(-f())`.  The binary does exactly this. *)
 Definition witness_not_idempotent : blk :=
-  Blk [Item [] false (SLocal [str "x"] [EParen (EUn Neg (EUn Neg (ECall (EName (str "f")) [])))]) None] [].
+  Blk [Item [] false (SLocal [str "x"] [EParen (EUn Neg (EUn Neg (ECall (EName (str "f")) false [])))]) None] [].
 Theorem nprog_not_idempotent_refuted : exists p, nprog (nprog p) <> nprog p.
 Proof. exists witness_not_idempotent. vm_compute. discriminate. Qed.
+
+(* ---------- C11 on whole programs: every call has the form call_parentheses asks for ---------- *)
+(* the form a call is printed in, and the kind of its arguments *)
+Definition out_form (sg : bool) (args : list exp) : CallForm.aform := aform_args (sg && sugarable args) args.
+Lemma aform_args_eff sg args : aform_args (sg && sugarable args) args = aform_args sg args.
+Proof. destruct sg; [|reflexivity]. destruct args as [|x [|y r]]; try reflexivity; destruct x; reflexivity. Qed.
+Lemma wf_call_args sg args : CallForm.wf_call (aform_args sg args) (akind_args args) = true.
+Proof. destruct sg; [|reflexivity]. destruct args as [|x [|y r]]; try reflexivity; destruct x; reflexivity. Qed.
+Lemma sugarable_map_cexp m args : sugarable (map (cexp m false) args) = sugarable args.
+Proof. destruct args as [|x [|y r]]; try reflexivity; destruct x; reflexivity. Qed.
+Lemma akind_map_cexp m args : akind_args (map (cexp m false) args) = akind_args args.
+Proof. destruct args as [|x [|y r]]; try reflexivity; destruct x; reflexivity. Qed.
+Lemma aform_map_cexp m sg args : aform_args sg (map (cexp m false) args) = aform_args sg args.
+Proof. destruct sg; [|reflexivity]. destruct args as [|x [|y r]]; try reflexivity; destruct x; reflexivity. Qed.
+(* the new flag says exactly "call_form did not answer FParen", and then the arguments can be written without parentheses *)
+Lemma newsg_form m o sg args : aform_args (newsg m o sg args) args = CallForm.call_form m (aform_args sg args) (akind_args args) o.
+Proof.
+  unfold newsg. destruct sg; cbn [aform_args].
+  - destruct args as [|x [|y r]]; try (destruct m, o; reflexivity); destruct x; try (destruct m, o; reflexivity).
+  - destruct args as [|x [|y r]]; try (destruct m, o; reflexivity); destruct x; try (destruct m, o; reflexivity).
+Qed.
+(* every call site of an expression obeys the rule; [o]: an index or a method call follows the expression *)
+Fixpoint calls_ok (m : CallForm.cmode) (o : bool) (e : exp) : bool :=
+  let all := forallb (calls_ok m false) in
+  match e with
+  | EField p _ => calls_ok m true p
+  | EIndex p k => calls_ok m true p && calls_ok m false k
+  | ECall f sg args => CallForm.form_ok m (out_form sg args) (akind_args args) o && calls_ok m false f && all args
+  | EMethod ob _ sg args => CallForm.form_ok m (out_form sg args) (akind_args args) o && calls_ok m true ob && all args
+  | EUn _ x | EParen x | FPos x | FNamed _ x => calls_ok m false x
+  | EBin _ l r | FKey l r => calls_ok m false l && calls_ok m false r
+  | ETable fs => all fs
+  | _ => true
+  end.
+Definition calls_okl (m : CallForm.cmode) (l : list exp) : bool := forallb (calls_ok m false) l.
+Lemma calls_okl_map m l : Forall (fun e => forall o, calls_ok m o (cexp m o e) = true) l -> calls_okl m (map (cexp m false) l) = true.
+Proof. unfold calls_okl. induction 1 as [|x r Hx Hr IH]; [reflexivity|]. cbn [map forallb]. rewrite Hx, IH. reflexivity. Qed.
+Theorem cexp_calls_ok m : forall e o, calls_ok m o (cexp m o e) = true.
+Proof.
+  induction e using exp_ind'; intros o; cbn [cexp calls_ok]; try reflexivity; rewrite ?IHe, ?IHe1, ?IHe2; try reflexivity.
+  - change (CallForm.form_ok m (out_form (newsg m o sg args) (map (cexp m false) args)) (akind_args (map (cexp m false) args)) o && true && calls_okl m (map (cexp m false) args) = true).
+    rewrite (calls_okl_map m args H), akind_map_cexp. unfold out_form. rewrite aform_args_eff, aform_map_cexp, newsg_form.
+    rewrite (CallForm.call_form_obeys_rule m _ _ o (wf_call_args sg args)). reflexivity.
+  - change (CallForm.form_ok m (out_form (newsg m o sg args) (map (cexp m false) args)) (akind_args (map (cexp m false) args)) o && true && calls_okl m (map (cexp m false) args) = true).
+    rewrite (calls_okl_map m args H), akind_map_cexp. unfold out_form. rewrite aform_args_eff, aform_map_cexp, newsg_form.
+    rewrite (CallForm.call_form_obeys_rule m _ _ o (wf_call_args sg args)). reflexivity.
+  - change (calls_okl m (map (cexp m false) fs) = true). apply calls_okl_map. exact H.
+Qed.
+(* under Input the pass prints every call as it was written *)
+Theorem cexp_input_prints_the_same c : forall e o, pexp c (cexp CallForm.Input o e) = pexp c e.
+Proof.
+  assert (M : forall l, Forall (fun e => forall o, pexp c (cexp CallForm.Input o e) = pexp c e) l -> map (pexp c) (map (cexp CallForm.Input false) l) = map (pexp c) l).
+  { induction 1 as [|x r Hx Hr IH]; [reflexivity|]. cbn [map]. rewrite Hx, IH. reflexivity. }
+  assert (F : forall o sg args, newsg CallForm.Input o sg args && sugarable (map (cexp CallForm.Input false) args) = sg && sugarable args).
+  { intros o sg args. rewrite sugarable_map_cexp. unfold newsg. rewrite CallForm.input_keeps_form.
+    destruct sg; [|reflexivity]. destruct args as [|x [|y r]]; try reflexivity; destruct x; reflexivity. }
+  induction e using exp_ind'; intros o; cbn [cexp pexp]; try reflexivity; rewrite ?IHe, ?IHe1, ?IHe2; try reflexivity.
+  - rewrite F, (M args H). reflexivity.
+  - rewrite F, (M args H). reflexivity.
+  - destruct fs as [|f fs]; [reflexivity|]. pose proof (M (f :: fs) H) as Q. cbn [map] in Q. cbn [map pexp]. rewrite Q. reflexivity.
+Qed.
+(* the rule on whole programs: a predicate on every expression of a program, with "nothing follows" at the roots *)
+Section SAll.
+Variable P : exp -> bool.
+Definition pall (l : list exp) : bool := forallb P l.
+Fixpoint sall_s (s : stmt) : bool :=
+  match s with
+  | SLocal _ es | SReturn es => pall es
+  | SAssign vs es => pall vs && pall es
+  | SCall e => P e
+  | SDo b => sall_b b
+  | SWhile e b | SRepeat b e => P e && sall_b b
+  | SIf e t r => P e && sall_b t && sall_r r
+  | SNumFor _ a b st body => P a && P b && match st with Some x => P x | None => true end && sall_b body
+  | SGenFor _ es body => pall es && sall_b body
+  | SFunction _ _ _ _ body | SLocalFunction _ _ _ body => sall_b body
+  | SBreak => true
+  end
+with sall_r (r : els) : bool := match r with NoElse => true | Else b => sall_b b | ElseIf e t r2 => P e && sall_b t && sall_r r2 end
+with sall_i (i : item) : bool := match i with Item _ _ s _ => sall_s s end
+with sall_b (b : blk) : bool := match b with Blk is _ => forallb sall_i is end.
+Variable fe : exp -> exp.
+Hypothesis Hfe : forall e, P (fe e) = true.
+Lemma pall_map es : pall (map fe es) = true.
+Proof. unfold pall. apply forallb_forall. intros x Hx. apply in_map_iff in Hx. destruct Hx as (y & <- & _). apply Hfe. Qed.
+Theorem sall_smap : (forall s, sall_s (smap_s fe s) = true) /\ (forall b, sall_b (smap_b fe b) = true).
+Proof.
+  assert (HI : forall is, Forall (fun i => sall_i (smap_i fe i) = true) is -> forallb sall_i (map (smap_i fe) is) = true).
+  { induction 1 as [|i r Hi Hr IH]; [reflexivity|]. cbn [map forallb]. rewrite Hi, IH. reflexivity. }
+  assert (H : forall s, sall_s (smap_s fe s) = true).
+  - apply (stmt_ind' (fun s => sall_s (smap_s fe s) = true) (fun r => sall_r (smap_r fe r) = true) (fun i => sall_i (smap_i fe i) = true) (fun b => sall_b (smap_b fe b) = true));
+      intros; try (cbn [smap_b sall_b]; apply HI; assumption); cbn [smap_s smap_r smap_i sall_s sall_r sall_i]; rewrite ?pall_map, ?Hfe;
+      try (match goal with |- context [option_map fe ?st] => destruct st; cbn [option_map]; rewrite ?Hfe end);
+      repeat (apply andb_true_iff; split); try reflexivity; try assumption; try apply Hfe; try apply pall_map.
+  - split; [exact H|]. intros [is tl]. cbn [smap_b sall_b]. apply HI. apply Forall_forall. intros [l bl s t] _. cbn [smap_i sall_i]. apply H.
+Qed.
+End SAll.
+Theorem format0_calls_obey_the_option c p : sall_b (calls_ok (callp0 c) false) (norm0 c p) = true.
+Proof. unfold norm0, cprog. apply (proj2 (sall_smap (calls_ok (callp0 c) false) (cexp (callp0 c) false) (fun e => cexp_calls_ok (callp0 c) e false))). Qed.
+(* non-vacuity: a tree that breaks the rule is rejected *)
+Example calls_ok_rejects : calls_ok CallForm.NoneM false (ECall (EName (str "f")) false [EStr (str "s")]) = false
+  /\ calls_ok CallForm.Always false (ECall (EName (str "f")) true [EStr (str "s")]) = false
+  /\ calls_ok CallForm.NoneM false (EField (ECall (EName (str "f")) true [EStr (str "s")]) (str "x")) = false.
+Proof. repeat split; reflexivity. Qed.
+Definition cfg_witness : cfg0 := {| windows0 := false; spaces0 := false; width0 := 4; style0 := QuoteMore.AutoDouble; callp0 := CallForm.Always; space0 := CallForm.SNever |}.
+Theorem norm0_not_idempotent_refuted : exists c p, norm0 c (norm0 c p) <> norm0 c p.
+Proof. exists cfg_witness, witness_not_idempotent. vm_compute. discriminate. Qed.
+(* ... while the call-form pass alone is idempotent on every tree (CallForm.call_form_idempotent, site by site) *)
+Theorem cexp_idempotent m : forall e o, cexp m o (cexp m o e) = cexp m o e.
+Proof.
+  assert (M : forall l, Forall (fun e => forall o, cexp m o (cexp m o e) = cexp m o e) l -> map (cexp m false) (map (cexp m false) l) = map (cexp m false) l).
+  { induction 1 as [|x r Hx Hr IH]; [reflexivity|]. cbn [map]. rewrite Hx, IH. reflexivity. }
+  assert (F : forall o sg args, newsg m o (newsg m o sg args) (map (cexp m false) args) = newsg m o sg args).
+  { intros o sg args. unfold newsg at 1. rewrite aform_map_cexp, akind_map_cexp, newsg_form, (CallForm.call_form_idempotent m _ _ o (wf_call_args sg args)). reflexivity. }
+  induction e using exp_ind'; intros o; cbn [cexp]; try reflexivity; rewrite ?IHe, ?IHe1, ?IHe2; try reflexivity.
+  - rewrite F, (M args H). reflexivity.
+  - rewrite F, (M args H). reflexivity.
+  - rewrite (M fs H). reflexivity.
+Qed.
